@@ -4,7 +4,9 @@
 import json, shutil, subprocess, sys
 from pathlib import Path
 pid, mk = sys.argv[1], sys.argv[2]
-src = Path(f"/tmp/mut_out/{pid}/{mk}")
+srcroot = sys.argv[3] if len(sys.argv) > 3 else "/tmp/mut_out"
+name = sys.argv[4] if len(sys.argv) > 4 else mk
+src = Path(f"{srcroot}/{pid}/{mk}")
 r = subprocess.run(["/verif/tools/seed_verify.sh", str(src)], capture_output=True, text=True)
 line = [l for l in r.stdout.splitlines() if l.startswith("{")][-1]
 res = json.loads(line)
@@ -12,7 +14,7 @@ ok = res.get("applies") and "145 passed" in res["tests_with_change"] and res["de
 print(pid, mk, "OK" if ok else "REJECTED", res)
 if not ok:
     sys.exit(1)
-dst = Path(f"/verif/seeded/{pid}-{mk}")
+dst = Path(f"/verif/seeded/{pid}-{name}")
 dst.mkdir(parents=True, exist_ok=True)
 for f in ("patch.diff", "demo.py", "notes.md"):
     if (src / f).exists():
